@@ -27,8 +27,8 @@ TRUSTED_BASE = [
     "runner/driver.ml (s-expression parser/printer) and ocamlfind ocamlopt 4.13.1",
     "the correspondence harness (harness/*.py, virtual-time loop, canonicaliser) and CPython 3.12 with asyncio/struct/ipaddress/dataclasses",
     "the model is hand-written; its tie to /repo/src is differential testing on the inputs listed in coverage, not proof",
-    "the ghost history (field glog of the model's world: queue_send / collector hand-over / send_sd / TimedStore refresh and expiry) is read by no model function and printed only for the comparison with the implementation's call history, which the harness obtains by wrapping those five methods of the real objects (harness/sim.py); the whole-run theorems are statements about the model's runs",
-    "Section variables / hypotheses: Proofs/Lift.v (the invariant and its twelve primitive obligations, all discharged at each instantiation), Proofs/AListFacts.v and Proofs/TimedStoreProofs.v (a decidable key equality); no Axiom / Parameter / Admitted anywhere (grep gate in `make setup`)",
+    "the ghost history (field glog of the model's world: queue_send / collector hand-over / send_sd / TimedStore refresh and expiry / registration of an already registered recording listener) is read by no model function and printed only for the comparison with the implementation's call history, which the harness obtains by wrapping those seven methods of the real objects (harness/sim.py); the whole-run theorems are statements about the model's runs",
+    "Section variables / hypotheses: Proofs/Lift.v and its generated sibling Proofs/Lift5.v (tools/gen_lift5.py; the invariant and its twelve resp. sixteen primitive obligations, all discharged at each instantiation), Proofs/AListFacts.v and Proofs/TimedStoreProofs.v (a decidable key equality); no Axiom / Parameter / Admitted anywhere (grep gate in `make setup`)",
 ]
 
 
